@@ -32,18 +32,34 @@ type blk struct {
 }
 
 type hist struct {
-	r       *hx.Rng
-	n       *exh.Node
-	chain   []blk // blocks currently on the chain, heights 1..tip, with the script each was applied under
-	txSeed  uint64
-	lastDel *blk
+	r          *hx.Rng
+	n          *exh.Node
+	chain      []blk // blocks currently on the chain, heights 1..tip, with the script each was applied under
+	txSeed     uint64
+	lastDel    *blk
+	flushEvery bool
 }
 
 func tipObs(n *exh.Node) *c05x.TipObs {
 	if b := n.Tip(); b != nil {
-		return &c05x.TipObs{ID: c05x.Hex(b.Header.ID), Height: b.Header.Height}
+		o := &c05x.TipObs{ID: c05x.Hex(b.Header.ID), Height: b.Header.Height}
+		func() {
+			defer func() { _ = recover() }()
+			ok := false
+			if stored, err := blockchain.NewDataAccess(n.DB, 1, 0).GetBlock(b.Header.ID); err == nil {
+				ok = bytes.Equal(stored.Encode(), b.Encode())
+			}
+			o.BodyOK = &ok
+		}()
+		return o
 	}
 	return nil
+}
+
+// flushDiff forces a memtable flush (what a restart or a long run does) and answers the keys that read differently afterwards.
+func flushDiff(n *exh.Node, before []c05x.KV) []string {
+	c05x.Must(n.DB.VerifC05Flush())
+	return c05x.DiffDumps(before, dump(n))
 }
 
 func fh(n *exh.Node) int64 {
@@ -168,6 +184,9 @@ func (h *hist) del(b *blockchain.Block, saveTemp, below bool) *c05x.EDelete {
 	r := n.DeleteBlock(b, saveTemp)
 	s.Err, s.Panic = exh.ErrClass(r), r.Panic
 	s.Post, s.VotesPost, s.TipAfter = dump(n), votes(n), tipObs(n)
+	if h.flushEvery && r.OK() {
+		s.FlushDiff = flushDiff(n, s.Post)
+	}
 	if r.OK() && shadow != nil {
 		c := *shadow
 		h.lastDel = &c
@@ -276,12 +295,13 @@ func watchdog(what string) *time.Timer {
 func runHist(seed, idx uint64, gt uint32) *c05x.EHist {
 	defer watchdog(fmt.Sprint("history ", idx)).Stop()
 	r := newRng(seed, idx)
-	rec := &c05x.EHist{K: "ehist", Seed: seed, Idx: idx, GenesisTime: gt, Keep: c05x.Pick(r, -1, 0, 1, 2, 300), MaxCache: c05x.Pick(r, 3, 5, 515),
+	rec := &c05x.EHist{K: "ehist", Seed: seed, Idx: idx, GenesisTime: gt, Keep: c05x.Pick(r, -1, 0, 1, 2, 300), MaxCache: c05x.Pick(r, 1, 2, 3, 5, 515),
 		NVals: 4, Steps: []interface{}{}}
 	opt := exh.Options{N: 4, GenesisTime: gt, KeepEvents: rec.Keep, KeepEventsSet: true, MaxBlockCache: rec.MaxCache}
 	n, err := exh.New(opt)
 	c05x.Must(err)
-	h := &hist{r: r, n: n, txSeed: (idx + 1) * 100000}
+	rec.FlushEvery = idx%2 == 0
+	h := &hist{r: r, n: n, txSeed: (idx + 1) * 100000, flushEvery: rec.FlushEvery}
 	afterDelete, raised, warm := false, false, 0
 	if r.Intn(5) < 2 { // 40% of the histories start with 4..7 plain applies (ordinary recorded steps) so that finality moves
 		warm = 4 + r.Intn(4)
@@ -323,6 +343,7 @@ func runHist(seed, idx uint64, gt uint32) *c05x.EHist {
 		afterDelete, raised = false, ea.Err == "ok" && ea.FhPost > ea.FhPre
 	}
 	rec.Twin = h.twin(opt)
+	rec.FinalFlushDiff = flushDiff(n, dump(n))
 	rec.Restart = restart(n)
 	n.Exec.VerifC03StopTicker()
 	_ = n.DB.Close()
